@@ -12,7 +12,7 @@ EBAD = ""
 UNIQ = "\x7fUNIQ-abc123-4-9f-QINU\x7f"
 
 SIGMA_S = [
-    "a", "\n", " ", "=", "==", "== ", "{|", "|}", "|-", "|", "||", "|!", "!!", "!", "|+", "|++", ":", ":{|",
+    "a", "\n", " ", "=", "==", "== ", "======", "=======", "=========", "======= ", "{|", "|}", "|-", "|", "||", "|!", "!!", "!", "|+", "|++", ":", ":{|",
     " :{|", ";", "*", "#", "----", "-", "''", "'", "'''", "[[", "]]", "[", "]", "http://a", "[http://a", "//a",
     "[//a", "mailto:a@b", "[mailto:a@b", "ftp://a", "irc://a", "news:a", "&amp;", "&#1;", "&#x1;", "&", "<b>",
     "</b>", "<b/>", "<", ">", "<!--c-->", "<!--", "__TOC__", "__", "_", "1", "\t", "\r", EBAD, "\U0001F600",
